@@ -91,13 +91,14 @@ def finish(ctx: Ctx, level_explanation: str, out=sys.stdout) -> int:
             known_hits.append((f, k))
         else:
             violations.append(f)
-    os.makedirs(os.path.join(VERIF, "replays"), exist_ok=True)
-    os.makedirs(os.path.join(VERIF, "evidence"), exist_ok=True)
+    OUT = os.environ.get("NUCSVERIF_OUT") or VERIF  # self-tests / patch evaluation redirect their output
+    os.makedirs(os.path.join(OUT, "replays"), exist_ok=True)
+    os.makedirs(os.path.join(OUT, "evidence"), exist_ok=True)
     for f, k in known_hits:
         print(f"KNOWN-FINDING: property={ctx.prop} {k.get('what', f.message)} [{f.key}]", file=out)
     replay_paths = []
     for i, f in enumerate(violations):
-        rp = os.path.join(VERIF, "replays", f"{ctx.prop}-{f.rule}-{i}.json")
+        rp = os.path.join(OUT, "replays", f"{ctx.prop}-{f.rule}-{i}.json")
         with open(rp, "w") as fh:
             json.dump({"property": ctx.prop, "rule": f.rule, "key": f.key, "loc": f.loc, "message": f.message,
                        "detail": _jsonable(f.detail), "tier": ctx.tier}, fh, indent=1)
@@ -140,7 +141,7 @@ def finish(ctx: Ctx, level_explanation: str, out=sys.stdout) -> int:
         "wall_s": round(wall, 3),
         "violations": len(violations),
     }
-    with open(os.path.join(VERIF, "evidence", f"{ctx.prop}.json"), "w") as fh:
+    with open(os.path.join(OUT, "evidence", f"{ctx.prop}.json"), "w") as fh:
         json.dump(_jsonable(ev), fh, indent=1)
     if violations:
         return 1
